@@ -17,7 +17,8 @@ RULE = ('text: lines "id SEP name [SEP anything]" joined by \\n or \\r\\n, with/
         'supplied table: (a) renumbering: the stream re-encoded under an injective renumbering sigma (new ids partly '
         'colliding with bundled ids of OTHER names) and decoded under sigma(T) gives the same trace texts, and the '
         'event listing shows "name (hex(sigma(id)))"; (b) removal: names removed from T are listed as bare hex and '
-        'decode like the stream with those events deleted; (c) the empty table decodes nothing and lists only bare hex. '
+        'decode like the stream with those events deleted; (c) the empty table decodes nothing and lists only bare hex; (d) a name listed under a second id is decoded under both; '
+        '(e) a listing requested under a table and consumed after other requests on the same object still uses its table. '
         'Non-trivial: text with a duplicate id or a comment; table run with >= 1 renumbered-to-colliding id or >= 1 '
         'removed name present in the stream; distinct by text / (table, stream) digest.')
 ASSUMPTIONS = ['every line of a table text has the form "hex-id name [anything]" (no blank lines)',
@@ -155,6 +156,46 @@ def prop_table(ctx, case):
     for e, line in zip(evs, kev3):
         if isinstance(e[1], str) and e[1] in removed and line != hex(byname[e[1]]):
             raise Violation('removed-name-listed', f'{e[1]} removed from the table but listed as {line!r}')
+    # (d) aliases: a name listed under two ids is decoded under both
+    alias = {}
+    for k, nme in enumerate(used):
+        if S.expand_words(case['seed'] + 7, k)[0] % 2 == 0:
+            new = (0x7a000000 + 0x40 * k) & ~3
+            while new in T or new in alias.values():
+                new += 4
+            alias[nme] = new
+    if alias:
+        T4 = dict(T)
+        T4.update({i: nme for nme, i in alias.items()})
+        # keep START/END of one operation under the same id: switch ids per (tid, code) instead of per record
+        per = {}
+        recs_alias = []
+        for i, (tid, code, q, data) in enumerate(evs):
+            if isinstance(code, str) and code in alias:
+                if q in (1, 3) or (tid, code) not in per:
+                    per[(tid, code)] = alias[code] if S.expand_words(case['seed'] + 11, i)[0] % 2 else byname[code]
+                ident = per.get((tid, code), byname[code])
+            else:
+                ident = byname[code] if isinstance(code, str) else code
+            recs_alias.append(kmodel.ev_record((1000 + 7 * i, tid, (ident & ~3) | q, data)))
+        blob4 = kmodel.v2_file([(0x101, 10, b'p')], 0, recs_alias)
+        tr4, _ = guard(decode, blob4, dict(T4))
+        if tr4 != base_traces:
+            k = next((i for i in range(min(len(tr4), len(base_traces))) if tr4[i] != base_traces[i]), min(len(tr4), len(base_traces)))
+            raise Violation('alias-id-not-decoded', f'with a second id for {sorted(alias)} in the table: {len(tr4)} traces instead of {len(base_traces)}; '
+                                                    f'first difference at {k}: {tr4[k:k + 1]} vs {base_traces[k:k + 1]}')
+    # (e) a listing requested under one table and consumed only after another request on the same object
+    from pykdebugparser.pykdebugparser import PyKdebugParser
+    pk = PyKdebugParser()
+    pk.show_timestamp = pk.show_process = pk.show_tid = pk.show_func_qual = pk.show_args = False
+    blob0 = make_file(evs, byname)
+    pending = guard(lambda: pk.formatted_kevents(BudgetReader(blob0), trace_codes=dict(T3)))
+    guard(lambda: list(pk.formatted_kevents(BudgetReader(blob0))))
+    guard(lambda: sum(1 for _ in pk.formatted_traces(BudgetReader(blob0), trace_codes={})))
+    late = [l.strip() for l in guard(lambda: list(pending))]
+    if late != kev3:
+        k = next((i for i in range(min(len(late), len(kev3))) if late[i] != kev3[i]), 0)
+        raise Violation('listing-table-rebound', f'a listing requested under a supplied table and read after later requests shows {late[k:k + 1]} instead of {kev3[k:k + 1]}')
     # (c) empty table
     tr0, kev0 = guard(decode, make_file(evs, byname), {})
     if tr0:
